@@ -2389,6 +2389,130 @@ def _shape(n):
     return {k: _shape(v) for k, v in sorted(n.items()) if k not in ("l", "t", "tw", "cv", "from", "ck", "elidable")}
 
 
+def forward_commits(body, f, facts):
+    """N11 build aside and commit: a member function that fills top-level locals and ends with a group of statements that
+    install each of them in a member (`m_x = x;`, `m_x = std::move(x);`, `m_x.swap(x);`) - the members being mentioned
+    nowhere else in the function - computes the same final state as the function that works on the members directly.  The
+    locals are renamed to the members (their declarations become the assignment of their initial value, a default-constructed
+    container becomes clear()), and the commit group goes.  What differs is only the state left behind by an exception,
+    which no rule that looks at normalised bodies speaks about.  Returns the number of locals forwarded."""
+    if not f.get("cls") or not isinstance(body, dict) or body.get("k") != "Block" or f.get("ctor") or f.get("dtor") or f.get("static"):
+        return 0
+    top = body.get("s", [])
+    end = len(top)
+    while end > 0 and isinstance(top[end - 1], dict) and (top[end - 1].get("k") == "Null" or
+                                                          (top[end - 1].get("k") == "Return" and (top[end - 1].get("e") is None or is_pure(top[end - 1]["e"], facts)))):
+        end -= 1
+    tail_rest = top[end:]
+
+    def local_ref(e):
+        u = ir.unwrap_all_casts(e)
+        while isinstance(u, dict) and ((u.get("k") == "Construct" and u.get("copymove") and len(u.get("args", [])) == 1) or
+                                       (u.get("k") == "Call" and ir._is_move(u) and len(u.get("args", [])) == 1)):
+            u = ir.unwrap_all_casts(u["args"][0])
+        return u if isinstance(u, dict) and u.get("k") == "Ref" and u.get("d") == "local" else None
+
+    def member_of_this(e):
+        u = ir.unwrap_all_casts(e)
+        if isinstance(u, dict) and u.get("k") == "Member" and u.get("field") and isinstance(ir.unwrap_all_casts(u.get("base")), dict) and \
+                ir.unwrap_all_casts(u["base"]).get("k") == "This":
+            return u
+        return None
+    pairs = []          # (member node, local id, statement)
+    i = end
+    while i > 0:
+        st = top[i - 1]
+        u = unwrap(st) if isinstance(st, dict) else None
+        m = l = None
+        if isinstance(u, dict) and u.get("k") == "Bin" and u.get("op") == "=":
+            m, l = member_of_this(u.get("lhs")), local_ref(u.get("rhs"))
+        elif isinstance(u, dict) and u.get("k") == "OpCall" and u.get("op") == "=" and len(u.get("args", [])) == 2:
+            m, l = member_of_this(u["args"][0]), local_ref(u["args"][1])
+        elif isinstance(u, dict) and u.get("k") == "MCall" and ir.callee_name(u) == "swap" and len(u.get("args", [])) == 1:
+            m, l = member_of_this(u.get("recv")), local_ref(u["args"][0])
+            if m is None:
+                m, l = member_of_this(u["args"][0]), local_ref(u.get("recv"))
+        if m is None or l is None:
+            break
+        pairs.append((m, l["id"], st))
+        i -= 1
+    if not pairs or i == 0:
+        return 0
+    if len(set(p_[0]["n"] for p_ in pairs)) != len(pairs) or len(set(p_[1] for p_ in pairs)) != len(pairs):
+        return 0
+    head = top[:i]
+    # each local is declared by a top-level declaration of its own in the head
+    decl_at = {}
+    for j, st in enumerate(head):
+        if isinstance(st, dict) and st.get("k") == "Decl" and len(st.get("vars", [])) == 1 and st["vars"][0].get("id") in [p_[1] for p_ in pairs]:
+            v = st["vars"][0]
+            if v.get("ref") or v.get("static"):
+                return 0
+            decl_at[v["id"]] = j
+    if len(decl_at) != len(pairs):
+        return 0
+    names = set(p_[0]["n"] for p_ in pairs)
+    commit_ids = set(id(x) for p_ in pairs for x in walk(p_[2]))
+    # the members are mentioned nowhere but in their commit; the locals nowhere after it
+    for n in walk(body):
+        if id(n) in commit_ids:
+            continue
+        mm = member_of_this(n) if n.get("k") == "Member" else None
+        if mm is not None and mm.get("n") in names:
+            return 0
+        if n.get("k") in ("MCall", "Call") and isinstance(n.get("callee"), dict) and n["callee"].get("cls") == f.get("cls") and \
+                not n["callee"].get("const") and n.get("k") == "MCall" and isinstance(ir.unwrap_all_casts(n.get("recv")), dict) and \
+                ir.unwrap_all_casts(n["recv"]).get("k") == "This":
+            return 0            # another member function of the object may touch the members
+    for st in tail_rest:
+        for n in walk(st):
+            if n.get("k") == "Ref" and n.get("d") == "local" and n.get("id") in decl_at:
+                return 0
+    # rewrite
+    by_id = {p_[1]: p_[0] for p_ in pairs}
+    new_head = []
+    for j, st in enumerate(head):
+        if isinstance(st, dict) and st.get("k") == "Decl" and len(st.get("vars", [])) == 1 and st["vars"][0].get("id") in by_id:
+            v = st["vars"][0]
+            m = copy.deepcopy(by_id[v["id"]])
+            m["l"] = st.get("l")
+            init = v.get("init")
+            ui = ir.unwrap_all_casts(init) if init is not None else None
+            t = (v.get("t") or "").replace("const ", "")
+            if init is None:
+                if t.startswith(("std::vector<", "std::deque<", "std::basic_string<", "std::unordered_map<", "std::map<", "std::set<", "std::unordered_set<", "std::list<")):
+                    ui = {"k": "Construct", "args": [], "t": t}
+                else:
+                    return 0        # an uninitialised scalar
+            if isinstance(ui, dict) and ui.get("k") == "Construct" and not ui.get("args") and \
+                    t.startswith(("std::vector<", "std::deque<", "std::basic_string<", "std::unordered_map<", "std::map<", "std::set<", "std::unordered_set<", "std::list<")):
+                new_head.append({"k": "MCall", "l": st.get("l"), "t": "void", "args": [], "recv": m,
+                                 "callee": {"qn": t + "::clear", "cls": t, "sig": [], "inrepo": False, "ret": "void", "access": 0}})
+            else:
+                new_head.append({"k": "Bin", "op": "=", "l": st.get("l"), "t": v.get("t"), "lhs": m, "rhs": init})
+        else:
+            new_head.append(st)
+
+    def rep(n):
+        if isinstance(n, list):
+            return [rep(x) for x in n]
+        if not isinstance(n, dict):
+            return n
+        if n.get("k") == "Ref" and n.get("d") == "local" and n.get("id") in by_id:
+            m = copy.deepcopy(by_id[n["id"]])
+            m["l"] = n.get("l")
+            return m
+        out = {}
+        for kk, vv in n.items():
+            if kk == "captures" and isinstance(vv, list):
+                out[kk] = [c for c in vv if not (isinstance(c, dict) and c.get("id") in by_id)]
+            else:
+                out[kk] = rep(vv) if isinstance(vv, (dict, list)) else vv
+        return out
+    body["s"] = rep(new_head) + tail_rest
+    return len(pairs)
+
+
 _SROA_COUNTER = [300000]
 
 
@@ -3304,6 +3428,7 @@ def normalise(facts, do_inline=True, do_propagate=True):
                 if f["body"] is f.get("body_raw"):
                     f["body"] = copy.deepcopy(f["body"])
                 substitute_named_constants(f["body"], facts)
+                stats["commits_forwarded"] = stats.get("commits_forwarded", 0) + forward_commits(f["body"], f, facts)
                 stats["sroa"] = stats.get("sroa", 0) + scalar_replace_aggregates(f["body"], facts)
                 stats["decl_merged"] = stats.get("decl_merged", 0) + merge_decl_with_first_store(f["body"])
                 stats["optional_this"] = stats.get("optional_this", 0) + resolve_optional_this(f["body"])
